@@ -23,6 +23,23 @@ pub fn gen_medium_op(rng: &mut Rng) -> Op {
     match rng.below(10) {
         0..=4 => Op::new("med.serde").a(slot(rng)).dst(slot(rng)).c(pool).form(rng.below(3)).m(fault).lit(lit),
         5 | 6 => Op::new("med.twin").a(slot(rng)).b(slot(rng)).dst(slot(rng)).c(2 + rng.below(4)).form(rng.below(3)).n(rng.below(9) as i64).m(rng.below(60) as i64),
+        7 if rng.chance(1, 2) => {
+            let exp = match rng.below(6) {
+                0 => (1i64 << 31) + rng.below(5) as i64 - 2,
+                1 => -(1i64 << 31) - rng.below(5) as i64 + 2,
+                2 => (1i64 << 40) + rng.below(9) as i64,
+                3 => -(1i64 << 45) - rng.below(9) as i64,
+                4 => rng.range(-70000, 70000),
+                _ => (rng.next() >> 3) as i64 - (1i64 << 59),
+            };
+            let prec = match rng.below(4) {
+                0 => 1i64 << 32,
+                1 => (1i64 << 32) + 7,
+                2 => rng.below(200) as i64,
+                _ => 0,
+            };
+            Op::new("med.bigexp").a(rng.below(100)).b(rng.below(2)).c(2 + rng.below(2)).form(rng.below(2)).n(exp).m(prec)
+        }
         7 => Op::new("med.bytes").a(slot(rng)).dst(slot(rng)).c(rng.below(2)).form(rng.below(2)).m(fault.min(7)).lit(lit),
         _ => Op::new("med.text").a(slot(rng)).dst(slot(rng)).c(pool).m(fault.min(7)).lit(lit),
     }
